@@ -1,4 +1,10 @@
-"""C03 — timestamps <-> epoch seconds (tracklib/core/obs_time.py)."""
+"""C03 — timestamps <-> epoch seconds (tracklib/core/obs_time.py).
+
+Two models are driven: the integer model (commands read/abs/cmp/add; what T1-T6 are about) and the generic model
+of the float path instantiated at IEEE doubles (readf/absf/rtf/addf/cmpf/subf; what T7-T14 are about in exact
+arithmetic). The correspondence with the second one is exact (fields and bit patterns); the first one is compared
+up to the documented "one millisecond low" of the float code. The oracle (`spec`) uses only the calendar of the
+standard library and exact rationals."""
 import calendar, datetime, math
 from fractions import Fraction
 from engine import Prop, fbits, bitsf
